@@ -268,6 +268,8 @@ theorem allEv_sumSimplify {e : Expr} {rs : List Var} (he : AllEv P e) : AllEv P 
     have hc : ∀ v ∈ c, P v := by simpa using allEv_prob_iff.mp he
     simp only
     split
+    · exact allEv_sum_iff.mpr he
+    split
     · exact allEv_one
     · split
       · exact allEv_sumSafe0 allEv_one
